@@ -11,7 +11,7 @@ import common
 import gen
 
 
-def run_logger(binary, workdir, data, chunks, pause_ms, slow_disk=None):
+def run_logger(binary, workdir, data, chunks, pause_ms, slow_disk=None, log_events=False):
     """Run the rtcmlogger binary: feed stdin in chunks, capture stdout, read the day's record file after exit.
     slow_disk = (record file name, stall seconds): the day's record file is a named pipe whose reader (this
     harness, playing a slow disk) stalls before it takes anything, so the recorder goroutine blocks in Write while
@@ -37,7 +37,7 @@ def run_logger(binary, workdir, data, chunks, pause_ms, slow_disk=None):
         disk.start()
     cfg = os.path.join(workdir, "cfg.json")
     with open(cfg, "w") as f:
-        json.dump({"log_events": False, "message_log_directory": workdir, "event_log_directory": workdir}, f)
+        json.dump({"log_events": log_events, "message_log_directory": workdir, "event_log_directory": workdir}, f)
     p = subprocess.Popen([binary, "-c", cfg], stdin=subprocess.PIPE, stdout=subprocess.PIPE, stderr=subprocess.PIPE, cwd=workdir)
     out = bytearray()
 
@@ -177,7 +177,8 @@ def run(res, args):
     os.makedirs(wd, exist_ok=True)
     def one(ij):
         i, (data, chunks, pause, tag) = ij
-        return run_logger(binary, os.path.join(wd, "run%d" % i), data, chunks, pause)
+        # every third run with the event log switched on (the event log is a third output; it must not touch the other two)
+        return run_logger(binary, os.path.join(wd, "run%d" % i), data, chunks, pause, log_events=(i % 3 == 1))
     with ThreadPoolExecutor(max_workers=8) as ex:
         results = list(ex.map(one, enumerate(jobs)))
     for (data, chunks, pause, tag), (rc, out, rec) in zip(jobs, results):
